@@ -111,7 +111,12 @@ def overlap_acl(rnd, words, prefix, gen="g"):
         # a protected rule and, further down, the explicit negated line of the same words (two generators' ACLs put together)
         base = [lit(w) for w in row]
         rules.insert(rnd.randrange(len(rules) + 1), mk(base, [], False, True, gen))
-        rules.append(mk([lit(prefix)] + base, [], False, rnd.choice([None, False]), gen))
+        if rnd.random() < 0.6:
+            rules.append(mk([lit(prefix)] + base, [], False, rnd.choice([None, False]), gen))
+        else:
+            # no written-out negation, but a catch-all of another generator: the negated line is still the protected rule's business
+            rules = [r for r in rules if any(t["t"] == "lit" for t in r["pat"])]
+            rules.append(mk([{"t": "tilde"}], [], rnd.random() < 0.5, None, gen))
         if rnd.random() < 0.7:
             row = [prefix] + row
     rnd.shuffle(rules) if rnd.random() < 0.5 else None
